@@ -40,6 +40,8 @@ type Ref struct {
 	OdsFileSize int64
 	Q4FileSize  int64
 	HdrSize     int64
+
+	odsImage, q4Image []byte
 }
 
 const hdrSize = 65
@@ -540,4 +542,49 @@ func rootsEqual(a, b *share.AxisRoots) bool {
 		}
 	}
 	return true
+}
+
+// OdsImage is the byte image of a complete blocks/<hash>.ods file of the block, built from the format
+// (store/file/header.go, ods.go) independently of the code that writes it: 1 version byte, 64 byte
+// header (file version, share size, square size, data hash), row roots, column roots, then the ODS
+// shares row-major up to the first tail padding share.
+func (r *Ref) OdsImage() []byte {
+	if r.odsImage != nil {
+		return r.odsImage
+	}
+	b := make([]byte, 0, r.OdsFileSize)
+	b = append(b, 1) // headerVersionV0
+	hdr := make([]byte, 64)
+	hdr[0] = 1 // fileV0
+	hdr[28], hdr[29] = byte(libshare.ShareSize&0xff), byte(libshare.ShareSize>>8)
+	hdr[30], hdr[31] = byte(r.W), byte(r.W>>8)
+	copy(hdr[32:64], r.Hash)
+	b = append(b, hdr...)
+	for _, root := range r.Roots.RowRoots {
+		b = append(b, root...)
+	}
+	for _, root := range r.Roots.ColumnRoots {
+		b = append(b, root...)
+	}
+	filled := r.OdsW*r.OdsW - r.Pad
+	for i := 0; i < filled; i++ {
+		b = append(b, r.Cell(i/r.OdsW, i%r.OdsW)...)
+	}
+	r.odsImage = b
+	return b
+}
+
+// Q4Image is the byte image of a complete blocks/<hash>.q4 file: the fourth quadrant row-major.
+func (r *Ref) Q4Image() []byte {
+	if r.q4Image != nil {
+		return r.q4Image
+	}
+	b := make([]byte, 0, r.Q4FileSize)
+	for i := 0; i < r.OdsW; i++ {
+		for j := 0; j < r.OdsW; j++ {
+			b = append(b, r.Cell(r.OdsW+i, r.OdsW+j)...)
+		}
+	}
+	r.q4Image = b
+	return b
 }
